@@ -136,6 +136,7 @@ inline Value gen_value(const Schema& s, Tape& t, const GenCfg& c, int& budget) {
       size_t nb = (size_t)n * es;
       if (nb <= 16) { v.bytes.resize(nb); for (size_t i = 0; i < nb; i += 8) { uint64_t w = t.next(); for (size_t j = 0; j < 8 && i + j < nb; j++) v.bytes[i + j] = char(w >> (8 * j)); } }
       else lcg_fill(v.bytes, nb, t.next());
+      if (s.boolean) for (auto& ch : v.bytes) ch &= 1;   // only valid bool object representations are ever written
       break; }
     case K::Seq: {
       long n = gen_len(t, c, 0, s.fixed, s.maxc, budget);
@@ -209,6 +210,7 @@ inline std::vector<Value> variants(const Schema& s, int cap = 48) {
         if (s.maxc >= 0 && n > s.maxc) n = s.maxc;
         Value v; lcg_fill(v.bytes, (size_t)n * es, (uint64_t)n + 7);
         if (n == 3 && es == 1) v.bytes = std::string("a\0\xff", 3);
+        if (s.boolean) for (auto& ch : v.bytes) ch &= 1;
         push(v);
       }
       break; }
